@@ -130,8 +130,8 @@ def run(tier, seed):
         "exhaustive": False, "accepted": ok,
         "known_finding_occurrences": v.n_known, "new_violations": v.n_new,
     }, time.time() - t0, violations=v.n_new,
-        assumptions=["the folding identity itself (apply_drp = coefficient-domain definition) is validated by the arithmetic checks once the limb-arithmetic reference exists; "
-                     "here it is exercised through prover/verifier consistency"])
+        assumptions=["the folding identity (apply_drp = coefficient-slice definition, fold_positions = first-occurrence de-duplication) is recomputed by TLC over the harness "
+                     "field F_40961 (Trace_Fold.tla, generic code); over the real fields it is exercised through prover/verifier consistency"])
     return rc
 
 
